@@ -451,6 +451,9 @@ class Program:
         self.adts = {}
         self.impls = []
         self.traits = {}
+        self.inlined = {}
+        records = []
+        fn_jsons = {}
         for fn in sorted(os.listdir(factdir)):
             if not fn.endswith(".jsonl"):
                 continue
@@ -458,9 +461,19 @@ class Program:
                 crate = None
                 for line in fh:
                     j = json.loads(line)
+                    if j["kind"] == "crate":
+                        crate = j["name"]
+                    elif j["kind"] == "fn":
+                        fn_jsons[j["path"]] = (j, crate)
+                    records.append((j, crate))
+        if canonical:
+            # functions that are not in the reference inventory (helpers extracted later) are spliced into their callers
+            from . import inline
+            self.inlined = inline.run(fn_jsons)
+        for j, crate in records:
+                if True:
                     k = j["kind"]
                     if k == "crate":
-                        crate = j["name"]
                         self.crates[crate] = j
                     elif k == "fn":
                         f = Function(j, crate)
